@@ -116,8 +116,7 @@ Module DacTree.
     /\ meta_at (f_heap (fst (mkdir dfs (view_of alice 18) p 511))) 9 = Some (mk (N.lor MODE_DIR 493) 1000 1000).
   Proof.
     split; [|split; vm_compute; reflexivity].
-    apply (dstep_mkdir dfs (svu alice 18) [n_h] n_n 511 (dtree_hyps alice 18)); [path_ok_tac|].
-    intros par name md HK. vm_compute in HK. injection HK as <- _ _. reflexivity.
+    apply (dstep_mkdir dfs (svu alice 18) [n_h] n_n 511 (dtree_hyps alice 18)). path_ok_tac.
   Qed.
 
   Example mkdir_bob_refused :
@@ -127,8 +126,7 @@ Module DacTree.
     /\ snd (k_mkdir dfs (svu bob 18) p 511) = SErr EACCES.
   Proof.
     split; [|vm_compute; reflexivity].
-    apply (dstep_mkdir dfs (svu bob 18) [n_h] n_n 511 (dtree_hyps bob 18)); [path_ok_tac|].
-    intros par name md HK. vm_compute in HK. injection HK as <- _ _. reflexivity.
+    apply (dstep_mkdir dfs (svu bob 18) [n_h] n_n 511 (dtree_hyps bob 18)). path_ok_tac.
   Qed.
 
   (* ---- OpenFile: bob reads /h/f, may not write it; alice creates /h/g exclusively --------------------------------- *)
@@ -156,9 +154,68 @@ Module DacTree.
     /\ meta_at (f_heap (fst (open_file dfs (view_of alice 23) 0 p flag 438))) 9 = Some (mk 416 1000 1000).
   Proof.
     split; [|split; vm_compute; reflexivity].
-    apply (dstep_open_excl dfs (svu alice 23) [n_h] n_g _ 438 0 (dtree_hyps alice 23)); [path_ok_tac|reflexivity|reflexivity| |].
-    - intros par kind name n d k i m HK. vm_compute in HK. discriminate HK.
-    - intros par name md HK. vm_compute in HK. injection HK as <- _ _. reflexivity.
+    apply (dstep_open_excl dfs (svu alice 23) [n_h] n_g _ 438 0 (dtree_hyps alice 23)); [path_ok_tac|reflexivity|reflexivity|].
+    intros par kind name n d k i m HK. vm_compute in HK. discriminate HK.
+  Qed.
+
+  (* ---- set-group-id inheritance (inode_init_owner): /h/s made alice:2000 02777.  bob (group 1000) creates a
+     directory and a file there: both get group 2000, the directory also the set-group-id bit ------------------------- *)
+  Definition dtree_sg : heap :=
+    [ NDir [(n_h, 1); (n_e, 4); (n_t, 6)] (mk (N.lor MODE_DIR 493) 0 0)
+    ; NDir [(n_f, 2); (n_s, 3)] (mk (N.lor MODE_DIR 488) 1000 1000)
+    ; NFile [7%N] 1 1 (mk 416 1000 1000)
+    ; NDir [] (mk (N.lor MODE_DIR (N.lor MODE_SETGID 511)) 1000 2000)
+    ; NDir [(n_p, 5); (n_q, 8)] (mk (N.lor MODE_DIR 493) 0 0)
+    ; NFile [] 1 2 (mk 420 0 0)
+    ; NDir [(n_b, 7)] (mk (N.lor MODE_DIR (N.lor MODE_STICKY 511)) 0 0)
+    ; NFile [] 1 3 (mk 420 1001 1000)
+    ; NFile [] 1 4 (mk 420 1000 2000) ].
+  Definition dfs_sg : fsys := {| f_heap := dtree_sg; f_last_id := 4; f_vols := [] |}.
+
+  Lemma dtree_sg_edges d n c :
+    dedge dtree_sg d n c -> In (d, c) [(0,1); (0,4); (0,6); (1,2); (1,3); (4,5); (4,8); (6,7)].
+  Proof.
+    unfold dedge, children, get.
+    do 9 (destruct d as [|d]; [cbn; intros H; repeat (destruct H as [[= <- <-]|H]; [repeat (first [left; reflexivity | right])|]); destruct H|]).
+    destruct d; cbn; intros [].
+  Qed.
+
+  Example dtree_sg_hyps (u : user) (um : N) : dac_hyps dfs_sg (svu u um).
+  Proof.
+    split; [reflexivity| | |reflexivity].
+    - apply increasing_wf.
+      + intros d n c H. apply dtree_sg_edges in H. cbn [In] in H.
+        repeat (destruct H as [[= <- <-]|H]; [lia|]). destruct H.
+      + intros d1 n1 d2 n2 c H1 H2 _. apply dtree_sg_edges in H1, H2. cbn [In] in H1, H2.
+        repeat (destruct H1 as [H1|H1]); try contradiction; injection H1 as <- <-;
+          repeat (destruct H2 as [H2|H2]); try contradiction; congruence.
+    - intros d n i t m _. unfold get.
+      do 9 (destruct i as [|i]; [cbn [nth_error dtree_sg dfs_sg f_heap]; intros E; discriminate E|]).
+      destruct i; discriminate.
+  Qed.
+
+  Example mkdir_setgid_inherits :
+    let p := abs_path ([n_h; n_s] ++ [n_n]) in
+    (fst (mkdir dfs_sg (view_of bob 18) p 511), proj_res Linux (snd (mkdir dfs_sg (view_of bob 18) p 511)))
+    = k_mkdir dfs_sg (svu bob 18) p 511
+    /\ snd (k_mkdir dfs_sg (svu bob 18) p 511) = SOk
+    /\ meta_at (f_heap (fst (mkdir dfs_sg (view_of bob 18) p 511))) 9
+       = Some (mk (N.lor MODE_DIR (N.lor MODE_SETGID 493)) 1001 2000).
+  Proof.
+    split; [|split; vm_compute; reflexivity].
+    apply (dstep_mkdir dfs_sg (svu bob 18) [n_h; n_s] n_n 511 (dtree_sg_hyps bob 18)). path_ok_tac.
+  Qed.
+
+  Example create_setgid_inherits_group :
+    let p := abs_path ([n_h; n_s] ++ [n_g]) in
+    let flag := (O_WRONLY + O_CREATE + O_EXCL)%N in
+    open_sim (open_file dfs_sg (view_of bob 18) 0 p flag 438) (k_open dfs_sg (svu bob 18) p flag 438)
+    /\ snd (k_open dfs_sg (svu bob 18) p flag 438) = inr 9
+    /\ meta_at (f_heap (fst (open_file dfs_sg (view_of bob 18) 0 p flag 438))) 9 = Some (mk 420 1001 2000).
+  Proof.
+    split; [|split; vm_compute; reflexivity].
+    apply (dstep_open_excl dfs_sg (svu bob 18) [n_h; n_s] n_g _ 438 0 (dtree_sg_hyps bob 18)); [path_ok_tac|reflexivity|reflexivity|].
+    intros par kind name n d k i m HK. vm_compute in HK. discriminate HK.
   Qed.
 
   (* ---- Rename of a file into another directory of alice's --------------------------------------------------------- *)
@@ -293,8 +350,7 @@ Module DacTree.
     /\ w_fs (fst (impl_step_proj w_alice c)) = sw_fs (fst (spec_step true sw_alice c)).
   Proof.
     split; [split; reflexivity|]. split; [|vm_compute; repeat split; reflexivity].
-    split; [exact (dtree_hyps alice 18)|]. split; [reflexivity|]. exists [n_h], n_n. split; [reflexivity|]. split; [path_ok_tac|].
-    intros par name md HK. vm_compute in HK. injection HK as <- _ _. reflexivity.
+    split; [exact (dtree_hyps alice 18)|]. split; [reflexivity|]. exists [n_h], n_n. split; [reflexivity|]. path_ok_tac.
   Qed.
 
   (* ---- a history on the states of C05: [Inv] and [links_ok] hold of the tree; the premises of the later calls are
@@ -315,12 +371,10 @@ Module DacTree.
   Example ahist_ok : dcall_ok_run true 0 sw_alice ahist.
   Proof.
     unfold ahist. cbn [dcall_ok_run]. split; [|split; [|split; [|split; [|exact I]]]]; intros H _ _; (split; [exact H|]); (split; [reflexivity|]).
-    - exists [n_h], n_n. split; [reflexivity|]. split; [path_ok_tac|].
-      intros par name md HK. vm_compute in HK. injection HK as <- _ _. reflexivity.
+    - exists [n_h], n_n. split; [reflexivity|]. path_ok_tac.
     - right. right. split; [reflexivity|]. split; [reflexivity|]. exists [n_h; n_n], n_g. split; [reflexivity|].
-      split; [path_ok_tac|]. split.
-      + intros par kind name n d k i m HK. vm_compute in HK. discriminate HK.
-      + intros par name md HK. vm_compute in HK. injection HK as <- _ _. vm_compute. reflexivity.
+      split; [path_ok_tac|].
+      intros par kind name n d k i m HK. vm_compute in HK. discriminate HK.
     - exists [n_h; n_n; n_g]. split; [reflexivity|]. path_ok_tac.
     - exists [n_h; n_n; n_g]. split; [reflexivity|]. path_ok_tac.
   Qed.
